@@ -62,12 +62,20 @@ class Executor(Engine):
                 return q
             if f"api.{n}" in self.contracts and n not in ("ReferenceTuple",):
                 return f"api.{n}"
+            if str(getattr(self, "cur_func", "")).startswith("lemma:"):
+                # lemmas name module-level functions of any module of the package (sidecars import them by name)
+                cands = [k for k in self.contracts if "#" not in k and k.split(".")[-1] == n
+                         and k in self.repo.funcs and self.repo.funcs[k][2] is None]
+                if len(cands) == 1:
+                    return cands[0]
             if n in ("Converter", "Record"):
                 return f"ctor.{n}"
             if n == "cls" and self.cur_class in ("Converter", "Record"):
                 return f"ctor.{self.cur_class}"
             if n == "_prepare":
                 return "lib._prepare"
+            if n == "_get_field_validator_values":
+                return "lib._get_field_validator_values"
             if n == "sorted":
                 return "lib.sorted"
             if n == "partial":
@@ -191,6 +199,34 @@ class Executor(Engine):
                 s1 = s1.assume(f_)
             outs.append((s1, L))
         return outs
+
+    VALIDATORS = (("api.Record.prefix_not_in_synonyms", "prefix_synonyms"), ("api.Record.uri_prefix_not_in_synonyms", "uri_prefix_synonyms"))
+
+    def validators_reject(self, vals, st):
+        """Condition under which Record(**vals) is rejected: the raises-conditions of the CONTRACTS of Record's two field
+        validators (each proved against the validator's source), wired to the fields named in their decorators."""
+        c = self.ctx
+        bad = []
+        for q, field in self.VALIDATORS:
+            if q not in self.contracts or q not in self.repo.funcs:
+                raise Unsupported(f"no contract / source for the validator {q}")
+            fnode = self.repo.funcs[q][0]
+            wired = any(isinstance(d, ast.Call) and getattr(d.func, "id", getattr(d.func, "attr", None)) == "field_validator"
+                        and [a.value for a in d.args if isinstance(a, ast.Constant)] == [field] and not d.keywords
+                        for d in fnode.decorator_list)
+            if not wired:
+                raise Unsupported(f"{q} is no longer declared as @field_validator({field!r})")
+            data = VDict(lambda k_: Or(veq(c, k_, VStr(c.lit("prefix"))), veq(c, k_, VStr(c.lit("uri_prefix")))),
+                         lambda k_: vite(c, veq(c, k_, VStr(c.lit("prefix"))), vals["prefix"], vals["uri_prefix"]), "str", "str")
+            parts = self.contract_parts(q, {"v": vals[field], "values": data}, st)
+            for t_, src in parts["requires"]:
+                if not smt.is_true(t_):
+                    c.oblige(f"{self.cur_func}:precondition of {q}: {src}", "precondition", st.pc, t_, self.cur_func)
+            if parts["may_raise"] or not parts["pure"]:
+                raise Unsupported(f"contract of {q} must be pure with exact raises-clauses")
+            bad += [when for _names, when, _src in parts["raises"]]
+        c.trusted.add("pydantic passes a validator the fields validated before it (prefix, uri_prefix) as values.data and stores the value it returns")
+        return Or(*bad) if bad else FALSE
 
     def is_sorted_values_dictcomp(self, node):
         """{k: sorted(v) for k, v in <dict>.items()}"""
@@ -335,7 +371,11 @@ class Executor(Engine):
                 v.setdefault("pattern", VNone())
                 return v
             vk = full(vals_k)
-            bad_k = Or(self.contains(vk["prefix_synonyms"], vk["prefix"], s0), self.contains(vk["uri_prefix_synonyms"], vk["uri_prefix"], s0))
+            c.bound.append(k)
+            try:
+                bad_k = self.validators_reject(vk, s0)
+            finally:
+                c.bound.pop()
             some_bad = Exists([k], And(rng(k, xs.n), bad_k))
             if not smt.is_false(some_bad):
                 outs.append((s0.assume(some_bad), Outcome("raise", exc="ValidationError")))
@@ -892,6 +932,19 @@ class Executor(Engine):
                     raise Unsupported("sorted() of " + type(v).__name__)
                 outs.append((s1, self.sorted_list(v, key_fn, reverse)))
             return outs
+        if q == "lib._get_field_validator_values":
+            # _get_field_validator_values(values, key) is `return values.data[key]` (checked on the current source); the
+            # contracts of the validators take `values` to be that mapping (the fields validated so far)
+            fn = self.repo.funcs.get("api._get_field_validator_values", (None,))[0]
+            body = [s_ for s_ in (fn.body if fn is not None else []) if not (isinstance(s_, ast.Expr) and isinstance(s_.value, ast.Constant))]
+            ok = (len(body) == 1 and isinstance(body[0], ast.Return) and len(call.args) == 2 and not call.keywords
+                  and ast.unparse(body[0].value) == f"{fn.args.args[0].arg}.data[{fn.args.args[1].arg}]")
+            if not ok:
+                raise Unsupported("_get_field_validator_values is no longer `return values.data[key]`")
+            outs = []
+            for s1, v in self.pure_eval(ast.Subscript(value=call.args[0], slice=call.args[1], ctx=ast.Load()), st, catching):
+                outs.append((s1, v))
+            return outs
         if q == "lib._prepare":
             # _prepare(data): `isinstance(data, Path)` / `isinstance(data, str)` branches read files or URLs; for any other
             # object the body is `else: return data` (checked on the current source). Only that branch is in scope here.
@@ -1053,7 +1106,7 @@ class Executor(Engine):
                         raise Unsupported("optional synonyms argument")
                     if isinstance(b[k], VSet):
                         b[k] = self.set_as_list(b[k])
-                bad = Or(self.contains(b["prefix_synonyms"], b["prefix"], s1), self.contains(b["uri_prefix_synonyms"], b["uri_prefix"], s1))
+                bad = self.validators_reject(b, s1)
                 if not smt.is_false(bad):
                     outs.append((s1.assume(bad), Outcome("raise", exc="ValidationError")))
                 s2, r = s1.assume(Not(bad)).allocate(c, "Record", "rec")
